@@ -330,7 +330,7 @@ def run(ctx):
         # plus a seed-chosen sample of the rest
         touched = []
         try:
-            out = subprocess.run("git -C /repo diff --name-only HEAD; git -C /repo diff --name-only HEAD~1 HEAD 2>/dev/null", shell=True, capture_output=True, text=True, timeout=30).stdout
+            out = subprocess.run("git -C {0} diff --name-only HEAD; git -C {0} diff --name-only HEAD~1 HEAD 2>/dev/null".format(os.environ.get("VERIF_REPO", "/repo")), shell=True, capture_output=True, text=True, timeout=30).stdout
             for ln in out.splitlines():
                 if ln.endswith(".py") and ln.startswith("symplyphysics/"):
                     m = ln[:-3].replace("/", ".")
